@@ -375,7 +375,17 @@ def run_real_crosscheck(spec):
         acc.evaluations += 1
         acc.distinct.add("real|%d|%d" % (spec["seed"], k))
         acc.count("traces_validated_against_impl")
-        if sim_b != reals[k]:
+        # a connection the real kernel reset under the client (data sent to a socket the server had
+        # already closed) is not comparable: what the client got before the RST is up to the kernel
+        rb = [dict(x) for x in reals[k]]
+        sb = [dict(x) for x in sim_b]
+        for x, y in zip(rb, sb):
+            if x.pop("reset", False):
+                acc.count("real:connection-reset-not-compared")
+                x.clear()
+                y.clear()
+            y.pop("reset", None)
+        if sb != rb:
             acc.inconclusive.append("sim-vs-real-kernel disagreement: scenario %s sim=%s real=%s" % (scn, sim_b, reals[k]))
             acc.count("sim_real_disagreements")
     acc.sample({"real_kernel_crosscheck": scns[0], "boundary": reals[0]})
